@@ -8,11 +8,16 @@ import Rl.Spec.Doc
 import Rl.Lemmas.LineBuffer
 import Rl.Lemmas.LineBufferSafe
 import Rl.Lemmas.EditorM
+import Rl.Lemmas.EditorOps
 namespace Rl
 open Rl.Spec Rl.Spec.Doc
 
 theorem EM.map_unit_apply {α : Type} (m : EM α) (s : Ed) :
     (do let _ ← m; pure () : EM Unit) s = match m s with | .error e => .error e | .ok (_, s') => .ok ((), s') := rfl
+
+/-- a state reader written as a lambda, followed by a continuation -/
+theorem EM.bind_read {α β : Type} (g : Ed → α) (f : α → EM β) (s : Ed) :
+    ((fun s => Except.ok (g s, s) : EM α) >>= f) s = f (g s) s := rfl
 
 /-! ### counts -/
 
@@ -149,4 +154,50 @@ theorem getLine : TextPure Rl.getLine := fun _ => rfl
 theorem getPromptCol : TextPure Rl.getPromptCol := fun _ => rfl
 
 end TextPure
+/-! ### the accepting commands and one iteration of the read loop (C01_outcome) -/
+
+theorem execute_endOfFile (S : Segmenter) (U : UData) (cfg : EdCfg) :
+    execute S U cfg .endOfFile = withPreAccept S U cfg (do
+      let empty ← lineEmpty
+      if empty then EM.exit .eof else if cfg.vi then pure .submit else pure .proceed) := by
+  unfold execute withPreAccept
+  simp only []
+
+/-- one iteration of the main loop for a command that needs no sub-loop -/
+theorem mainLoop_step (S : Segmenter) (U : UData) (cfg : EdCfg) (fuel : Nat) (s s1 : Ed) (cmd : Cmd)
+    (hnext : nextCmd S U cfg (fuel + 1) false false s = .ok (cmd, s1))
+    (hc1 : cmd ≠ .complete) (hc2 : cmd ≠ .reverseSearchHistory) (hc3 : cmd ≠ .suspend) (hc4 : cmd ≠ .quotedInsert) :
+    mainLoop S U cfg (fuel + 2) s =
+      (do match ← execute S U cfg cmd with
+          | .proceed => mainLoop S U cfg (fuel + 1)
+          | .submit => pure ())
+        (if cmd.shouldResetKillRing then { s1 with ring := s1.ring.reset } else s1) := by
+  rw [mainLoop]
+  by_cases hr : cmd.shouldResetKillRing = true <;>
+    (simp [EM.bind_apply, hnext, preCmds, hc1, hc2, hc3, hc4, hr, EM.modify]; try rfl)
+
+
+
+/-- `next_cmd` in emacs mode: read one key, run the emacs keymap on it -/
+theorem nextCmd_emacs (S : Segmenter) (U : UData) (cfg : EdCfg) (hvi : cfg.vi = false) (fuel : Nat) (s s0 s1 : Ed)
+    (k : KeyEvent) (cmd : Cmd) (hk : nextKey false s = .ok (k, s0))
+    (he : emacs S U cfg fuel k s0 = .ok (cmd, s1)) (hnr : ∀ m t, cmd ≠ .replace m t) :
+    nextCmd S U cfg fuel false false s = .ok (cmd, s1) := by
+  unfold nextCmd
+  simp [hvi, EM.bind_apply, waitForInput, hk, he, EM.bind_read]
+  first | done | (cases cmd <;> simp_all)
+
+
+theorem commonTable_right : ∀ e ∈ commonTable, e.1 = key .right → e.2 = .move .charRight := by decide
+
+
+theorem EM.bind_assoc' {α β γ : Type} (m : EM α) (f : α → EM β) (g : β → EM γ) :
+    (m >>= f) >>= g = m >>= fun a => f a >>= g := by
+  funext s
+  simp only [EM.bind_apply]
+  cases m s with
+  | error e => rfl
+  | ok r => rfl
+
+
 end Rl
